@@ -30,6 +30,27 @@ def one(patch):
         shutil.rmtree(d, ignore_errors=True)
 
 
+KNOWN_LIMITS = {"benign/A2/p08.diff", "benign/A2/p09.diff", "benign/A2/p10.diff"}      # DESIGN 6.2: refactorings the normal form does not follow
+together = "--together" in sets
+sets = [s for s in sets if not s.startswith("--")] or sorted(os.path.basename(d.rstrip("/")) for d in glob.glob("benign/*/"))
+if together:
+    # all patches of a set applied to one scratch copy (those known not to be followed are left out): interactions between rewrites
+    for sname in sets:
+        d = tempfile.mkdtemp(prefix="psv-benign-", dir="/tmp")
+        try:
+            subprocess.check_call("git -C /repo archive HEAD include src test | tar -x -C %s" % d, shell=True)
+            n = 0
+            for pth in sorted(glob.glob("benign/%s/p*.diff" % sname)):
+                if pth in KNOWN_LIMITS:
+                    continue
+                if subprocess.run(["patch", "-p1", "-s", "-d", d, "-i", os.path.abspath(pth)], capture_output=True).returncode == 0:
+                    n += 1
+            env = dict(os.environ, PSV_EVIDENCE_DIR=d + "/_ev", PSV_CACHE_DIR=d + "/_cache")
+            bad = [p for p in claimed if subprocess.run(["./check", p, "--tier", "quick", "--repo", d], capture_output=True, text=True, env=env).returncode != 0]
+            print("set %-3s %2d patches together: %s" % (sname, n, "silent" if not bad else "ALARM " + ",".join(bad)))
+        finally:
+            shutil.rmtree(d, ignore_errors=True)
+    sys.exit(0)
 patches = [p for s in sets for p in sorted(glob.glob("benign/%s/p*.diff" % s))]
 out = {}
 with ThreadPoolExecutor(int(os.environ.get("BENIGN_JOBS", "6"))) as ex:
